@@ -5,6 +5,7 @@ from .core.mir import op_local, op_place, strip_generics, callee_name
 from .core.cond import all_tests, call_site_of, borrowed_local, const_of, result_edges
 from .core.slicing import origins, origin_calls
 from .core.effects import provenance
+from .core.symexpr import expr, show, strip_refs
 from .c04 import error_exits, _offset_stores, _install_sites
 from .persistord import check_atomic_replace
 
@@ -59,6 +60,36 @@ def check_single_append(ctx, facts):
             ctx.ok("C10.1", F, "the flushed mapping is the written block's", b.relfile, s.line)
         else:
             ctx.violate("C10.1", F, "flush-of-other-mapping", b.relfile, s.line, "the flushed mapping is not the mmap of the block written")
+        # ... as it is AT the write: the handle flushed was read from the current block after the last time the function
+        # replaced that block (the rotation `*block = new_block`); a handle taken at the top of the call still names the
+        # sealed block's file when the append rolled over into a new one
+        _o, _l, trav = origins(b, s.node["args"][0], follow_all_calls=True)
+        loads = []
+        for x in trav:
+            nd = x.node
+            if x.idx == "term":
+                if nd.get("args") and ".mmap" in show(strip_refs(expr(b, nd["args"][0])), 8) and re.search(r"Clone>?::clone$", strip_generics(nd.get("callee") or "")):
+                    loads.append(x)
+            elif nd.get("k") == "assign" and nd["rv"]["k"] in ("use", "ref"):
+                pl_ = op_place(nd["rv"]["op"]) if nd["rv"]["k"] == "use" else nd["rv"]["place"]
+                if pl_ is not None and pl_["p"] and isinstance(pl_["p"][-1], dict) and pl_["p"][-1].get("n") == "mmap":
+                    loads.append(x)
+        swaps = [site for site, st in b.assigns() if st["place"]["p"] == ["*"] and b.local_ty(st["place"]["l"]).replace("&mut ", "").endswith("block::Block")]
+        swaps += [c for c in b.calls(re.compile(r"^std::mem::(replace|swap)$")) if c.node["args"] and "Block" in b.local_ty(op_local(c.node["args"][0]) or 0)]
+
+        def _ix(x):
+            return 10 ** 9 if x.idx == "term" else x.idx
+
+        def _leads(x, y):
+            return (x.bb == y.bb and _ix(x) < _ix(y)) or (x.bb != y.bb and y.bb in b.reachable_after(x.bb))
+        stale = [(l_, w_) for l_ in loads for w_ in swaps if _leads(l_, w_) and _leads(w_, s)]
+        if stale:
+            ctx.violate("C10.1", F, "flush-handle-taken-before-rotation", b.relfile, s.line,
+                        "the mapping flushed at line %s was taken from the writer's block at line %s, before the block is replaced at line %s (rotation): when the rotation rolls over "
+                        "into a new file the entry is written to the new file and the old one is synced - the append is acknowledged without its data being durable"
+                        % (s.line, stale[0][0].line, stale[0][1].line))
+        elif loads:
+            ctx.ok("C10.1", F, "the flushed handle is read from the current block after any rotation", b.relfile, s.line)
         if all(b.dominates(w.bb, s.bb) for w in writes):
             ctx.ok("C10.1", F, "flush comes after Block::write", b.relfile, s.line)
         else:
